@@ -760,7 +760,7 @@ def check_vtt(pid, tier, seed, scratch, replay):
         gens=[(dict(GEN_FAM="H"), 2, 2, None), (dict(GEN_FAM="C"), 10, 10, None), (dict(GEN_FAM="P"), 1, 1, None), (dict(GEN_FAM="N"), 1, 1, None), (dict(GEN_FAM="K"), 1, 1, None),
               (dict(GEN_FAM="H", GEN_WIDE=1), 0, 4, "thorough"), (dict(GEN_FAM="C", GEN_WIDE=1), 0, 16, "thorough"), (dict(GEN_FAM="P", GEN_WIDE=1), 0, 4, "thorough")],
         nrand=(0, 0), per_jvm=2500,
-        rule=("TLC enumerates ground truths of five families - H: timestamp map x STYLE block (0-2 lines) x regions (0-2, with "
+        rule=("TLC enumerates ground truths of five families - H: timestamp map x STYLE block (0-2 lines) x regions (0-2, with regionanchor / viewportanchor / "
               "lines/width/scroll) x region reference; C: one cue with id present/absent x 0-2 comment lines x 4 cue-setting subsets "
               "x voice x 1-2 runs over 7 tag stacks (depth 0-3, classes, annotation) x inline timestamp, or two lines; P: two cues "
               "(tag stack / comment / id state between cues); N: nesting - 2-3 runs over stacks in which tags of the same name are "
